@@ -111,7 +111,7 @@ type FileField struct {
 // Case is one request description.
 type Case struct {
 	Method    string      `json:"method"`
-	Kind      string      `json:"kind"`       // nil | value | reader | readcloser | form
+	Kind      string      `json:"kind"`       // nil | value | reader | readcloser | buffer (*bytes.Buffer payload) | bytesreader (*bytes.Reader payload) | form
 	MediaType string      `json:"media_type"` // the media type the operation chooses
 	Route     string      `json:"route"`      // consumes | empty-then | default: how the choice reaches the runtime
 	Value     *Value      `json:"value,omitempty"`
@@ -142,7 +142,7 @@ func (c Case) hasFiles() bool { return len(c.Files) > 0 }
 // streaming reports whether the body reaches the request as a stream rather than as the runtime's buffer.
 func (c Case) streaming() bool {
 	switch c.Kind {
-	case "reader", "readcloser":
+	case "reader", "readcloser", "buffer", "bytesreader":
 		return true
 	case "form":
 		return c.hasFiles() || c.MediaType == mtMultipart
@@ -195,7 +195,7 @@ func Check(c Case) *kit.Violation {
 	if c.Kind == "value" && c.Value != nil {
 		value = c.Value.Build()
 	}
-	if (c.Kind == "reader" || c.Kind == "readcloser") && c.Body != nil {
+	if (c.Kind == "reader" || c.Kind == "readcloser" || c.Kind == "buffer" || c.Kind == "bytesreader") && c.Body != nil {
 		blob = c.Body.Data.Bytes()
 		bodyStream = &stream{data: blob, sc: c.Body.Script}
 	}
@@ -254,6 +254,11 @@ func Check(c Case) *kit.Violation {
 			return req.SetBodyParam(onlyReader{bodyStream})
 		case "readcloser":
 			return req.SetBodyParam(readCloser{bodyStream})
+		case "buffer":
+			// the concrete type the client itself uses for its own buffer: a caller's buffer must not be mistaken for it
+			return req.SetBodyParam(bytes.NewBuffer(append([]byte(nil), blob...)))
+		case "bytesreader":
+			return req.SetBodyParam(bytes.NewReader(blob))
 		}
 		return nil
 	})
@@ -363,7 +368,7 @@ func Check(c Case) *kit.Violation {
 		if rawCT != "" && mt != c.MediaType {
 			return kit.Failf("NIL-PAYLOAD: Content-Type %q with no payload (chosen %q)", rawCT, c.MediaType)
 		}
-	case "reader", "readcloser":
+	case "reader", "readcloser", "buffer", "bytesreader":
 		if !bytes.Equal(sent, blob) {
 			return kit.Failf("READER-PAYLOAD kind=%s script=%+v auth=%d: sent %d bytes %s, payload has %d bytes %s", c.Kind, c.Body.Script, c.Auth, len(sent), clipB(sent), len(blob), clipB(blob))
 		}
